@@ -1,7 +1,9 @@
 //! iggy-verif: executes scenario files against the real iggy code and records ndjson traces
 //! for validation against the TLA+ specifications in /verif/specs.
+mod cat_lens;
 mod log_lens;
 mod srv;
+mod topic_lens;
 mod util;
 
 use std::io::BufRead;
@@ -43,6 +45,46 @@ fn main() {
                     continue;
                 }
                 let scn: log_lens::Scenario = match serde_json::from_str(&line) {
+                    Ok(s) => s,
+                    Err(e) => {
+                        tool_errors.push(format!("bad scenario line {n}: {e}"));
+                        continue;
+                    }
+                };
+                if let Err(e) = l.run_scenario(n, &scn, &mut out) {
+                    tool_errors.push(format!("{}: {e}", scn.id));
+                }
+                n += 1;
+            }
+        }
+        "cat" => {
+            let l = cat_lens::CatLens::new(&work);
+            for line in std::io::BufReader::new(file).lines() {
+                let line = line.expect("read");
+                if line.trim().is_empty() {
+                    continue;
+                }
+                let scn: cat_lens::Scenario = match serde_json::from_str(&line) {
+                    Ok(s) => s,
+                    Err(e) => {
+                        tool_errors.push(format!("bad scenario line {n}: {e}"));
+                        continue;
+                    }
+                };
+                if let Err(e) = l.run_scenario(n, &scn, &mut out) {
+                    tool_errors.push(format!("{}: {e}", scn.id));
+                }
+                n += 1;
+            }
+        }
+        "topic" => {
+            let l = topic_lens::TopicLens::new(&work);
+            for line in std::io::BufReader::new(file).lines() {
+                let line = line.expect("read");
+                if line.trim().is_empty() {
+                    continue;
+                }
+                let scn: topic_lens::Scenario = match serde_json::from_str(&line) {
                     Ok(s) => s,
                     Err(e) => {
                         tool_errors.push(format!("bad scenario line {n}: {e}"));
